@@ -55,8 +55,18 @@ type inst struct {
 	prodDone        []bool
 	closeRet        bool
 	closeCalledStep int
-	wcalls          int
-	mon             uint64
+	wcalls     int
+	mon        uint64
+	deliveredB []string // second diode writer of the fatal2 scenarios
+}
+
+type recWriterB struct{ in *inst }
+
+func (r recWriterB) Write(b []byte) (int, error) {
+	mcrt.Point("wB.enter")
+	r.in.deliveredB = append(r.in.deliveredB, string(b))
+	r.in.bump(9, string(b))
+	return len(b), nil
 }
 
 func msgOf(p, w int) string {
@@ -97,6 +107,17 @@ func newInst(p params) *inst {
 }
 
 var stepClock int
+
+var bigBufs [8][]byte
+
+// bigBuf returns a reusable zero-length slice of capacity 70000 (one per producer; contents are scribbled
+// over after each Write anyway, exactly like a recycled zerolog buffer).
+func bigBuf(p int) []byte {
+	if bigBufs[p%8] == nil {
+		bigBufs[p%8] = make([]byte, 0, 70000)
+	}
+	return bigBufs[p%8][:0]
+}
 var prodNames = []string{"prod0", "prod1", "prod2", "prod3", "prod4", "prod5"}
 
 func (in *inst) Body() {
@@ -112,6 +133,13 @@ func (in *inst) Body() {
 	if p.End == "fatal" {
 		logger = zerolog.New(dw)
 	}
+	if p.End == "fatal2" {
+		// the Fatal path through a MultiLevelWriter over TWO diode writers: both must be drained before exit
+		mcrt.DaemonNext = true
+		dwB := diode.NewWriter(recWriterB{in}, p.N, interval, func(missed int) { in.bump(10, "") })
+		mcrt.DaemonNext = false
+		logger = zerolog.New(zerolog.MultiLevelWriter(dw, dwB))
+	}
 	clock := 0
 	for pi := 0; pi < p.P; pi++ {
 		pi := pi
@@ -119,7 +147,14 @@ func (in *inst) Body() {
 			for w := 0; w < p.W; w++ {
 				m := msgOf(pi, w)
 				in.written = append(in.written, m)
-				buf := []byte(m)
+				var buf []byte
+				if (pi+w)%2 == 0 {
+					// a short message in a buffer of large capacity (zerolog's own pooled buffers may have grown
+					// beyond 64 KiB): what the ring holds must still be a private copy
+					buf = append(bigBuf(pi), m...)
+				} else {
+					buf = []byte(m)
+				}
 				clock++
 				in.callStep[m] = clock
 				n, err := dw.Write(buf)
@@ -152,7 +187,7 @@ func (in *inst) Body() {
 		dw.Close()
 		in.closeRet = true
 		in.bump(7, "")
-	case "fatal":
+	case "fatal", "fatal2":
 		// the Fatal path: the event is written through the diode, then the writer is closed, then os.Exit
 		m := "{\"level\":\"fatal\"}\n"
 		in.written = append(in.written, m)
@@ -249,7 +284,7 @@ func (in *inst) Check(res *mcrt.Result) []explore.Violation {
 		writtenSet[m] = true
 	}
 	total := p.P * p.W
-	if p.End == "fatal" {
+	if p.End == "fatal" || p.End == "fatal2" {
 		total++
 	}
 
@@ -361,7 +396,10 @@ func (in *inst) Check(res *mcrt.Result) []explore.Violation {
 
 	blockedRec := p.Rec != "normal"
 	// ---- C11: after Close returned (or on the Fatal path at Exit) nothing is lost silently ----
-	closed := in.closeRet || (p.End == "fatal" && res.Exited)
+	closed := in.closeRet || ((p.End == "fatal" || p.End == "fatal2") && res.Exited)
+	if p.End == "fatal2" && res.Exited && len(in.deliveredB) != 1 {
+		add("C11", "", "Fatal through MultiLevelWriter(diodeA, diodeB): the second diode delivered %d events before exit, want the fatal event (1)", len(in.deliveredB))
+	}
 	if closed && !blockedRec {
 		if len(in.delivered)+sumAlerts < len(in.written) {
 			add("C11", holeSig, "lost silently: written=%d delivered=%d alerts=%v collisions=%d (read index %d, hole there=%v, %d published messages behind it)",
@@ -373,7 +411,7 @@ func (in *inst) Check(res *mcrt.Result) []explore.Violation {
 			add("C11", holeSig, "ring never full (%d messages, size %d) yet only %d delivered before Close returned", total, p.N, len(in.delivered))
 		}
 	}
-	if p.End == "fatal" && !res.Exited && !res.Deadlock {
+	if (p.End == "fatal" || p.End == "fatal2") && !res.Exited && !res.Deadlock {
 		add("C11", "", "Fatal path did not reach os.Exit")
 	}
 
@@ -390,7 +428,7 @@ func (in *inst) Check(res *mcrt.Result) []explore.Violation {
 				add("C12", sig, "stuck: all Writes returned, no thread can run, but written=%d delivered=%d alerts=%v (consumer blocked on %v)",
 					len(in.written), len(in.delivered), in.alerts, res.BlockedOn)
 			}
-		case "close", "fatal":
+		case "close", "fatal", "fatal2":
 			if res.Deadlock || (!in.closeRet && !res.Exited) {
 				add("C12", "", "Close did not return: deadlock=%v blocked=%v on %v", res.Deadlock, res.Blocked, res.BlockedOn)
 			}
